@@ -27,6 +27,9 @@ EXPLANATION = (
   ' (STATE-share) no assignment stores a container field of one object (a field the package updates in place) into a field of another object without copying it, so an in-place update of one object never changes another;'
   " (ITEM-source) an object built once per item of an inner loop is filled only with values that derive from that item or do not vary with the loops, never with a value of the enclosing container standing where the item's own belongs;"
   ' (AGREE-dropmode) from_frames and to_frames decide for the same frame rates (evaluated on ten rates, helper predicates followed) whether the drop-frame correction applies;'
+  ' (LINT-m) the time-code patterns list no literal separators beside an unescaped `.` (which would make every character a separator);'
+  ' (LOOP-break) no loop over the items of a collection is left by a branch that does nothing but `break` on a test about the item (end-of-input sentinels, flags set in the loop body and searches whose variable is read afterwards excepted): an item that is to be skipped does not end the processing of the items after it;'
+  ' (FIN-wholeframes) SmpteTimeCode.from_seconds hands from_frames the integer number of complete frames (120 times on and inside frames at 5 rates);'
 )
 RULE_TEXT = "EXA: one instance per truncation / time sink call site; FMT: one instance per printer branch x separator choice x sample vector"
 UNDECIDED = ["frames -> label -> frames identity", "label validity and drop-frame label skipping", "monotonicity of successive frame counts",
@@ -305,6 +308,47 @@ def check_drop_count(ctx):
                 f"labels drift against frame counts, so from_frames and to_frames are not inverse at this rate (e.g. frame 15826 -> 00:10:59;20 -> 15827)")
 
 
+def check_whole_frames(ctx):
+  """FIN-wholeframes: SmpteTimeCode.from_seconds hands from_frames a whole number of frames, the count of complete frames
+  at that time (floor), for times inside a frame as well as on frame boundaries - from_frames labels a fractional count
+  with a frame field equal to the frame rate (00:00:00:30 at 30 fps).  The argument of the from_frames call is evaluated
+  for (k + j/4) / rate, j = 0..3."""
+  from fractions import Fraction as F
+  from math import floor
+  from ..consteval import FuncEval, NotConst, Raised, _CallingConstEval
+  ix = ctx.ix
+  f = ix.func("ttconv.time_code:SmpteTimeCode.from_seconds")
+  ctx.unit(f.module)
+  calls = [c for c in own_nodes(f.node) if isinstance(c, ast.Call) and unparse(c.func).endswith("from_frames") and c.args]
+  if len(calls) != 1:
+    raise AnalysisError("SmpteTimeCode.from_seconds: expected one from_frames(...) call")
+  call = calls[0]
+  st = call
+  while not isinstance(st, ast.stmt):
+    st = st._parent
+  body = [x for x in f.node.body if x.lineno < st.lineno]
+  fe = FuncEval(ix)
+  wrong = []
+  n = 0
+  for rate in (F(24), F(25), F(30), F(30000, 1001), F(60000, 1001)):
+    for k in (0, 1, 29, 30, 1798, 107892):
+      for j in range(4):
+        t = (F(k) + F(j, 4)) / rate
+        env = {f.params[0]: t, f.params[1]: rate}
+        try:
+          ce = _CallingConstEval(ix, fe, f, 0, None)
+          fe._block(ce, f, body, env)
+          got = ce.ev(f.module, call.args[0], f.cls, env)
+        except (NotConst, Raised, TypeError) as e:
+          raise AnalysisError(f"SmpteTimeCode.from_seconds leaves the evaluable subset ({e})")
+        n += 1
+        if not (isinstance(got, int) and not isinstance(got, bool)) or got != floor(t * rate):
+          wrong.append(f"t = ({k} + {j}/4)/{rate}: from_frames receives {got!r}, expected the integer {floor(t * rate)}")
+  ctx.check(not wrong, "FIN-wholeframes", f"{f.qualname}|from_frames receives the whole number of complete frames", ctx.where(f.module, call), f"{n} times on and inside frames at 5 rates",
+            "; ".join(wrong[:2]) + f" ({len(wrong)} of {n}): a time inside a frame is labelled with a frame field that is out of range or a frame late, which the reader rejects or shifts")
+  ctx.extra["finite_domain_evaluations"] = ctx.extra.get("finite_domain_evaluations", 0) + n
+
+
 def check_drop_mode_agreement(ctx):
   """AGREE-dropmode: from_frames and to_frames are inverse only if they apply the drop-frame correction to the
   same rates.  The conditions that enclose the drop count in each are evaluated (helper predicates such as
@@ -371,11 +415,11 @@ def check_parse_rate(ctx):
       seq = list(outcomes)
 
       def decide(test, r=r, seq=seq):
-        if match.is_none_test(test, lambda x: ".match(" in unparse(x)) is not None:
+        if match.is_none_test(test, lambda x: ".match(" in unparse(x) or ".fullmatch(" in unparse(x)) is not None:
           if not seq:
             raise match.PathUndecided("more pattern tests than expected")
           matched = seq.pop(0)
-          return matched != match.is_none_test(test, lambda x: ".match(" in unparse(x))
+          return matched != match.is_none_test(test, lambda x: ".match(" in unparse(x) or ".fullmatch(" in unparse(x))
         try:
           return bool(ce.ev(f.module, test, f.cls, {rate_p: r}))
         except NotConst as e:
@@ -410,9 +454,11 @@ def run(ctx):
   check_fmt(ctx)
   check_drop_count(ctx)
   check_drop_mode_agreement(ctx)
+  check_whole_frames(ctx)
   check_drop_frame_labels(ctx)
   nq = shape.check_pure_queries(ctx, [c for c in ix.classes.values() if c.module.name == "ttconv.time_code"])
   ctx.floor("PURE-query", "query methods of the time code classes", nq, 10)
   check_parse_rate(ctx)
   common.check_numeric_fields(ctx, ["ttconv.time_code"])
+  common.check_regexes(ctx, ["ttconv.time_code"], whole=False, floor=0)
   common.check_history_independence(ctx, ["ttconv.time_code", "ttconv.imsc.attributes", "ttconv.imsc.utils", "ttconv.srt.paragraph", "ttconv.vtt.cue"])
